@@ -72,6 +72,8 @@ def reason_holds(v: View, reason, s):
     if reason == "ABORTED":
         if v.pre_poll_true:
             return True
+        if any(e[0] == "poll" and e[2] for e in v.trace):
+            return True
         for x in v.segs:
             if x.poll_true:
                 return True
